@@ -9,6 +9,8 @@
 #include <cppcms/json.h>
 #include <sstream>
 #include <stdio.h>
+#include <stdlib.h>
+#include <math.h>
 #include <typeinfo>
 #include <algorithm>
 #include <iostream>
@@ -561,7 +563,18 @@ namespace json {
 			out<<"null";
 			break;
 		case json::is_number:
-			out<<std::setprecision(std::numeric_limits<double>::digits10+1)<<number();
+			{
+				int precision = std::numeric_limits<double>::digits10+1;
+				double v = number();
+				// next to the largest finite double 16 digits round up to a literal
+				// that no longer fits into double and could not be parsed back
+				char buf[64];
+				snprintf(buf,sizeof(buf),"%.*g",precision,v);
+				double back = strtod(buf,0);
+				if(back != v && (back == HUGE_VAL || back == -HUGE_VAL))
+					precision++;
+				out<<std::setprecision(precision)<<v;
+			}
 			break;
 		case json::is_string:
 			to_json(str(),out);
